@@ -11,10 +11,19 @@ from harness.interp import Harness
 def apply_edit_script(cur: list[tuple[str, str]], script: list) -> list[tuple[str, str]]:
     new = list(cur)
     fresh = 0
+
+    def unique(i: str) -> str:
+        # line ids must be unique within a method (a delete followed by an append could otherwise repeat one)
+        taken = {x for x, _ in new}
+        k, out = 0, i
+        while out in taken:
+            k += 1
+            out = f"{i}_{k}"
+        return out
     for step in script:
         if step[0] == "append":
             fresh += 1
-            new.append((f"new_{len(new)}_{fresh}_{zlib.crc32(step[1].encode()) % 9973}", step[1]))
+            new.append((unique(f"new_{len(new)}_{fresh}_{zlib.crc32(step[1].encode()) % 9973}"), step[1]))
         elif step[0] == "change" and new:
             k = int(step[1] * len(new))
             new[k] = (new[k][0], step[2])
@@ -24,7 +33,7 @@ def apply_edit_script(cur: list[tuple[str, str]], script: list) -> list[tuple[st
         elif step[0] == "insert":
             fresh += 1
             k = int(step[1] * (len(new) + 1))
-            new.insert(k, (f"ins_{len(new)}_{fresh}_{zlib.crc32(step[2].encode()) % 9973}", step[2]))
+            new.insert(k, (unique(f"ins_{len(new)}_{fresh}_{zlib.crc32(step[2].encode()) % 9973}"), step[2]))
     return new
 
 
